@@ -22,6 +22,7 @@ pub fn opts() -> GenOpts {
     o.cmd_or_words = true;
     o.adjacent_cmds = true;
     o.cmd_fallback = true;
+    o.adjacent_cmd_last = true;
     o
 }
 
